@@ -199,7 +199,6 @@ def record_one(job):
         w = rng.choice([1.0, 1.0, 2.0, 0.5])
         vec = rng.random() < 0.35     # the same probe through the vectorised path (a one-row batch)
         if abs(x) > 1e300:
-            vec = False                 # (the extreme magnitudes row-wise only)
             huge = True
         ev = {"op": "EFill", "xid": xid + 1, "cls": cls, "r": int(r), "near": bool(near), "w": list(pnum(w)),
               "x": repr(x), "vec": bool(vec), "out": "ok", "exc": ""}
